@@ -458,7 +458,7 @@ func (g *qgen) matching() string {
 		}
 		mod += " group_left"
 		if g.r.Intn(2) == 0 {
-			mod += " (" + pick(g.r, []string{"b", "c", "b, c", "a"}) + ")"
+			mod += " (" + pick(g.r, []string{"b", "c", "b, c", "a", "__name__", "c, __name__"}) + ")"
 		}
 	case 1:
 		if mod == "" {
@@ -466,7 +466,7 @@ func (g *qgen) matching() string {
 		}
 		mod += " group_right"
 		if g.r.Intn(2) == 0 {
-			mod += " (" + pick(g.r, []string{"b", "c", "zz"}) + ")"
+			mod += " (" + pick(g.r, []string{"b", "c", "zz", "__name__"}) + ")"
 		}
 	}
 	return mod
